@@ -154,10 +154,13 @@ AccOnly(c) == /\ Has(c.acc)
               /\ \A f \in MainSet(c.mode) : ~Has(c.p[f])
               /\ (c.mode = "catch" => ~Has(c.p.n50) /\ ~Has(c.p.katu))
 
+(* "achievable": the result is itself one of the distributions of the remaining objects *)
+Achievable(c, r) == IF c.mode = "catch" THEN r.n50 + r.katu = c.sh.c ELSE MainSum(c.mode, r) = Rem(c, r)
 Optimal(c, r) ==
   AccOnly(c) =>
      /\ r.miss = Min(Or0(c.p.miss), MissCap(c))
-     /\ (Rem(c, r) >= 0 => \A d \in Dists(c, r) : FracLe(DistFrac(c, r), DistFrac(c, d)))
+     /\ (Rem(c, r) >= 0 => /\ Achievable(c, r)
+                           /\ \A d \in Dists(c, r) : FracLe(DistFrac(c, r), DistFrac(c, d)))
 
 -----------------------------------------------------------------------------
 (* Part 2: transcription of the integer branches (acc = NONE; catch: all   *)
